@@ -182,9 +182,10 @@ theorem vm_refines_sld_call (prog : List Term) (query : Term) (max : Nat)
     Forall2 (AnsRel (Driver.C01.shiftVars 10 query)) as1 as2 ∧ endAgree e1 e2 :=
   vm_refines_sld_S prog query max hfrag hmax f1 f2 as1 as2 e1 e2 h1 h2 hcalls
 
-/-- **vm_refines_sld_ctl** (stage 3): program and query in `CtlFrag` (Horn clauses with `!` and the
-    control constructs `call(G)`, `(C -> T ; E)`, `(C -> T)`, `once(G)`, `\\+ G` as goals — in clause
-    bodies, in the query and in the goals that are called), the side condition `CallsOK` on the goals
+/-- **vm_refines_sld_ctl** (stage 3): program and query in `CtlFrag` (clauses over user predicates
+    whose bodies are disjunctions — at the top level — of conjunctions of `!`, Horn goals and the
+    control constructs `call(G)`, `(C -> T ; E)`, `(C -> T)`, `once(G)`, `\\+ G`; the same for the
+    query and for the goals that are called), the side condition `CallsOK` on the goals
     that are called.  A cut inside `call/1`, `once/1`, `\\+`, inside the condition or a branch of an
     if-then(-else) is local. -/
 theorem vm_refines_sld_ctl (prog : List Term) (query : Term) (max : Nat)
@@ -264,6 +265,24 @@ theorem vm_refines_sld_horn_canon (prog : List Term) (query : Term) (max : Nat)
     (hinner : SLD.maxVar query = 0 ∨ ∀ a ∈ as1, a ≠ Driver.C01.shiftVars 10 query) :
     as1.map Term.canon = as2.map Term.canon ∧ endAgree e1 e2 :=
   vm_refines_sld_cut_canon prog query max (CutFrag.of_horn hfrag) hmax f1 f2 as1 as2 e1 e2 h1 h2 hinner
+
+/-- **what stage 3 leaves open** (NOT proved), as a statement: the refinement for the fragment with
+    (a) a disjunction `(A ; B)` that is not an if-then-else as a GOAL inside a conjunction (the VM
+    runs the three clauses of `;`/2 — the two if-then-else clauses fail at the head — and
+    `P ; Q :- call((P ; Q))`: a frame without level in the reference, as for `true`; the call of the
+    disjunction itself is covered: `call/1` of a goal with top-level disjuncts), `','/2` as a predicate,
+    and (b) `call/N`, 2 ≤ N ≤ 8 (for N ≥ 9 the VM MODEL and the reference DISAGREE: the model's
+    `builtin "call"` accepts any arity and calls the goal, the reference — like the Go engine, which
+    only defines call/1 … call/8 — raises `existence_error(procedure, call/9)`; witness:
+    `p(1,2,3,4,5,6,7,8).  ?- call(p,1,2,3,4,5,6,7,8).`).  `Frag` is any decidable fragment
+    predicate that contains these goals in addition to those of `CtlFrag`. -/
+def VmRefinesSldCtlFullStatement (Frag : List Term → Term → Prop) : Prop :=
+  ∀ (prog : List Term) (query : Term) (max : Nat), Frag prog query → 0 < max →
+    ∀ (f1 f2 : Nat) (as1 as2 : List Term) (e1 : VM.End) (e2 : SLD.End),
+      VM.runQuery f1 prog (Driver.C01.shiftVars 10 query) max = some (as1, e1) →
+      SLD.solveQuery f2 prog query max = some (as2, e2) →
+      CallsOK true f1 prog query max →
+      Forall2 (AnsRel (Driver.C01.shiftVars 10 query)) as1 as2 ∧ endAgree e1 e2
 
 /-- the target statement without the extra hypothesis (NOT proved: in the model, `app` returns the
     unresolved template when `applyAll` exceeds the inner fuel 100000; see the report) -/
